@@ -79,6 +79,8 @@ Inductive op : Type :=
 | ORemoveKey (k : Z)          (* RemoveKey(key) / RemoveKey(keyIter), 1100-1127 *)
 | OResetKey (k t : Z)         (* ResetKey(keyIter, key'), 1129-1134 *)
 | OClear                      (* Clear, 872-881 *)
+| OAddKey (k t : Z)           (* AddKeyCrt(Find(k), creator of Key{k,t}) for an ABSENT key, 1038-1048 *)
+| OAddRange (l : list (Z * Z * Z))  (* Add(begin, end) / Add(initializer_list): AddVar(key, value) per element, 1008-1026 *)
 | OSwap                       (* Swap with the second container, 811-816 *)
 | OCopyTo                     (* second = copy of first (copy constructor 769-787 + Swap) *)
 | OCopyFrom                   (* first = copy of second *)
@@ -86,14 +88,23 @@ Inductive op : Type :=
 
 Definition mm_copy (M : Z) (m : mm) : mm := (map (set_arr (ab_copy M)) (fst m), snd m).
 
+(* pvAdd, 1215-1231 *)
+Definition add1 (M : Z) (m : mm) (k t v : Z) : mm :=
+  match find k (fst m) with
+  | Some _ => (upd k (set_arr (ab_add M v)) (fst m), snd m + 1)
+  | None => (fst m ++ [mkE k t (ab_add M v ab_null)], snd m + 1)
+  end.
+
 Definition step1 (M : Z) (m : mm) (o : op) : mm :=
   let es := fst m in
   let n := snd m in
   match o with
-  | OAdd k t v =>
+  | OAdd k t v => add1 M m k t v
+  | OAddRange l => fold_left (fun m' x => add1 M m' (fst (fst x)) (snd (fst x)) (snd x)) l m
+  | OAddKey k t =>
       match find k es with
-      | Some _ => (upd k (set_arr (ab_add M v)) es, n + 1)
-      | None => (es ++ [mkE k t (ab_add M v ab_null)], n + 1)
+      | Some _ => m                                  (* precondition violated: not called *)
+      | None => (es ++ [mkE k t ab_null], n)
       end
   | OAddAt k v =>
       match find k es with
@@ -186,10 +197,16 @@ Definition all_pairs (es : list entry) : list (Z * Z) := flat_map pairs_of es.
 Definition sp : Type := Z -> option (Z * list Z).          (* key id -> (tag, value list) *)
 Definition sp_empty : sp := fun _ => None.
 
+Definition sp_add (s : sp) (k t v : Z) : sp :=
+  fun x => if x =? k then
+        match s k with Some (t0, vs) => Some (t0, vs ++ [v]) | None => Some (t, [v]) end else s x.
+
 Definition sp_step1 (s : sp) (o : op) : sp :=
   match o with
-  | OAdd k t v => fun x => if x =? k then
-        match s k with Some (t0, vs) => Some (t0, vs ++ [v]) | None => Some (t, [v]) end else s x
+  | OAdd k t v => sp_add s k t v
+  | OAddRange l => fold_left (fun s' x => sp_add s' (fst (fst x)) (snd (fst x)) (snd x)) l s
+  | OAddKey k t => fun x => if x =? k then
+        match s k with Some tv => Some tv | None => Some (t, []) end else s x
   | OAddAt k v => fun x => if x =? k then
         match s k with Some (t0, vs) => Some (t0, vs ++ [v]) | None => None end else s x
   | OInsertKey k t => fun x => if x =? k then
@@ -461,19 +478,28 @@ Proof. reflexivity. Qed.
 Lemma elen_new k t : elen (mkE k t ab_null) = 0.
 Proof. reflexivity. Qed.
 
+Lemma add1_inv M m k t v : 0 < M < 16 -> Inv M m -> Inv M (add1 M m k t v).
+Proof.
+  intros HM (ND & CN & AB). destruct m as [es n]. simpl in *. subst n. unfold add1. simpl.
+  destruct (find k es) as [e|] eqn:F; repeat split; simpl.
+  + rewrite keys_upd; auto.
+  + rewrite (sumlen_upd _ _ _ _ F), elen_add. lia.
+  + eapply forall_upd; eauto. simpl. apply ab_add_inv; auto.
+    rewrite Forall_forall in AB. apply AB. eapply find_in; eauto.
+  + rewrite keys_app. apply nodup_snoc; auto. simpl. apply find_none; auto.
+  + rewrite sumlen_app, elen_new_add. lia.
+  + apply Forall_app. split; auto. constructor; auto. simpl. apply ab_add_inv; auto. apply ab_null_inv.
+Qed.
+
+Lemma add_range_inv M l : 0 < M < 16 -> forall m, Inv M m ->
+  Inv M (fold_left (fun m' x => add1 M m' (fst (fst x)) (snd (fst x)) (snd x)) l m).
+Proof. intros HM. induction l as [|x l IH]; intros m H; simpl; auto. apply IH. apply add1_inv; auto. Qed.
+
 Lemma step1_inv M m o : 0 < M < 16 -> Inv M m -> Inv M (step1 M m o).
 Proof.
   intros HM (ND & CN & AB). destruct m as [es n]. simpl in *. subst n.
   destruct o; simpl; try (repeat split; simpl; auto; fail).
-  - (* OAdd *)
-    destruct (find k es) as [e|] eqn:F; repeat split; simpl.
-    + rewrite keys_upd; auto.
-    + rewrite (sumlen_upd _ _ _ _ F), elen_add. lia.
-    + eapply forall_upd; eauto. simpl. apply ab_add_inv; auto.
-      rewrite Forall_forall in AB. apply AB. eapply find_in; eauto.
-    + rewrite keys_app. apply nodup_snoc; auto. simpl. apply find_none; auto.
-    + rewrite sumlen_app, elen_new_add. lia.
-    + apply Forall_app. split; auto. constructor; auto. simpl. apply ab_add_inv; auto. apply ab_null_inv.
+  - (* OAdd *) apply (add1_inv M (es, sumlen es) k t v HM). repeat split; auto.
   - (* OAddAt *)
     destruct (find k es) as [e|] eqn:F; repeat split; simpl; auto.
     + rewrite keys_upd; auto.
@@ -519,6 +545,13 @@ Proof.
       * rewrite find_upd_none; auto.
   - (* OClear *)
     repeat split; simpl; auto. constructor.
+  - (* OAddKey *)
+    destruct (find k es) as [e|] eqn:F; repeat split; simpl; auto.
+    + rewrite keys_app. apply nodup_snoc; auto. simpl. apply find_none; auto.
+    + rewrite sumlen_app, elen_new. lia.
+    + apply Forall_app. split; auto. constructor; auto. simpl. apply ab_null_inv.
+  - (* OAddRange *)
+    apply add_range_inv; auto. repeat split; auto.
 Qed.
 
 Lemma sumlen_map_copy M es : sumlen (map (set_arr (ab_copy M)) es) = sumlen es.
@@ -529,7 +562,7 @@ Proof.
   intros HM (ND & CN & AB). repeat split; simpl.
   - rewrite keys_map; auto.
   - rewrite sumlen_map_copy. auto.
-  - apply Forall_map. eapply Forall_impl; [|exact AB]. intros e _. simpl. apply ab_copy_inv; auto.
+  - apply Forall_map. eapply Forall_impl; [|exact AB]. intros e He. simpl. apply ab_copy_inv; auto.
 Qed.
 
 Lemma step_inv M s o : 0 < M < 16 -> Inv M (fst s) /\ Inv M (snd s) -> Inv M (fst (step M s o)) /\ Inv M (snd (step M s o)).
@@ -539,18 +572,39 @@ Proof.
 Qed.
 
 (* ---------------------------------------------------------------- refinement of the reference mapping *)
+Lemma abs_add1 M m k t v x : abs (fst (add1 M m k t v)) x = sp_add (abs (fst m)) k t v x.
+Proof.
+  destruct m as [es n]. unfold abs, add1, sp_add. simpl.
+  destruct (Z.eqb_spec x k) as [->|NE].
+  + destruct (find k es) as [e|] eqn:F; simpl.
+    * rewrite (find_upd_same _ _ _ _ F) by auto. reflexivity.
+    * rewrite find_app, F. simpl. rewrite Z.eqb_refl. reflexivity.
+  + destruct (find k es) as [e|] eqn:F; simpl.
+    * rewrite find_upd_other; auto.
+    * rewrite find_app. destruct (find x es); auto. simpl. destruct (Z.eqb_spec k x); [lia|auto].
+Qed.
+
+Lemma sp_add_ext s s' k t v : (forall x, s x = s' x) -> forall x, sp_add s k t v x = sp_add s' k t v x.
+Proof. intros E x. unfold sp_add. destruct (x =? k); auto. rewrite E. reflexivity. Qed.
+
+Lemma sp_add_range_ext l : forall s s', (forall x, s x = s' x) -> forall x,
+  fold_left (fun s0 y => sp_add s0 (fst (fst y)) (snd (fst y)) (snd y)) l s x =
+  fold_left (fun s0 y => sp_add s0 (fst (fst y)) (snd (fst y)) (snd y)) l s' x.
+Proof. induction l as [|y l IH]; intros s s' E x; simpl; auto. apply IH. apply sp_add_ext. exact E. Qed.
+
+Lemma abs_add_range M l : forall m x,
+  abs (fst (fold_left (fun m' y => add1 M m' (fst (fst y)) (snd (fst y)) (snd y)) l m)) x =
+  fold_left (fun s0 y => sp_add s0 (fst (fst y)) (snd (fst y)) (snd y)) l (abs (fst m)) x.
+Proof.
+  induction l as [|y l IH]; intros m x; simpl; auto.
+  rewrite IH. apply sp_add_range_ext. intros z. apply abs_add1.
+Qed.
+
 Lemma abs_step1 M m o : NoDup (keys (fst m)) -> forall x, abs (fst (step1 M m o)) x = sp_step1 (abs (fst m)) o x.
 Proof.
   intros ND x. destruct m as [es n]. simpl in *. unfold abs.
   destruct o; simpl; auto.
-  - (* OAdd *)
-    destruct (Z.eqb_spec x k) as [->|NE].
-    + destruct (find k es) as [e|] eqn:F; simpl.
-      * rewrite (find_upd_same _ _ _ _ F) by auto. reflexivity.
-      * rewrite find_app, F. simpl. rewrite Z.eqb_refl. reflexivity.
-    + destruct (find k es) as [e|] eqn:F; simpl.
-      * rewrite find_upd_other; auto.
-      * rewrite find_app. destruct (find x es); auto. simpl. destruct (Z.eqb_spec k x); [lia|auto].
+  - (* OAdd *) apply (abs_add1 M (es, n) k t v x).
   - (* OAddAt *)
     destruct (Z.eqb_spec x k) as [->|NE].
     + destruct (find k es) as [e|] eqn:F; simpl.
@@ -593,6 +647,14 @@ Proof.
       * rewrite (find_upd_same _ _ _ _ F) by auto. reflexivity.
       * rewrite find_upd_none; auto. rewrite F. reflexivity.
     + rewrite find_upd_other; auto.
+  - (* OAddKey *)
+    destruct (Z.eqb_spec x k) as [->|NE].
+    + destruct (find k es) as [e|] eqn:F; simpl.
+      * rewrite F. reflexivity.
+      * rewrite find_app, F. simpl. rewrite Z.eqb_refl. reflexivity.
+    + destruct (find k es) as [e|] eqn:F; simpl; auto.
+      rewrite find_app. destruct (find x es); auto. simpl. destruct (Z.eqb_spec k x); [lia|auto].
+  - (* OAddRange *) apply (abs_add_range M l (es, n) x).
 Qed.
 
 Lemma abs_copy M m x : abs (fst (mm_copy M m)) x = abs (fst m) x.
@@ -604,7 +666,9 @@ Definition refines (s : st) (r : sp * sp) : Prop :=
 Lemma sp_step1_ext s s' o : (forall x, s x = s' x) -> forall x, sp_step1 s o x = sp_step1 s' o x.
 Proof.
   intros E x. destruct o; simpl; auto; try (destruct (x =? k); auto; rewrite E; auto; fail).
-  rewrite E; auto.
+  - apply sp_add_ext; auto.
+  - rewrite E; auto.
+  - apply sp_add_range_ext; auto.
 Qed.
 
 Lemma step_refines M s r o : NoDup (keys (fst (fst s))) -> refines s r -> refines (step M s o) (sp_step r o).
@@ -722,34 +786,267 @@ Proof.
 Qed.
 
 (* ---------------------------------------------------------------- a key persists until removed as a key *)
+Lemma add1_persists M m k0 t v k : find k (fst m) <> None -> find k (fst (add1 M m k0 t v)) <> None.
+Proof.
+  destruct m as [es n]. unfold add1. simpl. intros H. destruct (find k es) as [e0|] eqn:F0; [|congruence].
+  destruct (find k0 es) eqn:F; simpl.
+  - destruct (Z.eq_dec k k0) as [->|NE].
+    + rewrite (find_upd_same _ _ _ _ F0) by auto. discriminate.
+    + rewrite find_upd_other; auto. rewrite F0. discriminate.
+  - rewrite find_app, F0. discriminate.
+Qed.
+
+Lemma add_range_persists M l k : forall m, find k (fst m) <> None ->
+  find k (fst (fold_left (fun m' x => add1 M m' (fst (fst x)) (snd (fst x)) (snd x)) l m)) <> None.
+Proof. induction l as [|x l IH]; intros m H; simpl; auto. apply IH. apply add1_persists; auto. Qed.
+
 Lemma key_persists M m o k :
   abs (fst m) k <> None ->
   (forall k', o = ORemoveKey k' -> k' <> k) -> o <> OClear ->
   abs (fst (step1 M m o)) k <> None.
 Proof.
-  intros H NK NC. unfold abs in *. destruct m as [es n]. simpl in *.
-  destruct (find k es) as [e0|] eqn:F0; [|congruence]. clear H.
+  intros H NK NC.
+  assert (forall es', find k es' <> None -> (match find k es' with Some e => Some (etag e, evals e) | None => None end) <> None) as W
+    by (intros es' Hf; destruct (find k es'); congruence).
+  assert (find k (fst m) <> None) as H0 by (unfold abs in H; destruct (find k (fst m)); congruence).
+  unfold abs. apply W. clear W H. destruct m as [es n]. simpl in *.
+  destruct (find k es) as [e0|] eqn:F0; [|congruence]. clear H0.
   assert (forall f, (forall e, ekey (f e) = ekey e) -> forall k', find k (upd k' f es) <> None) as U.
   { intros f Hf k'. destruct (Z.eq_dec k k') as [->|NE].
     - rewrite (find_upd_same _ _ _ _ F0 Hf). discriminate.
     - rewrite find_upd_other; auto. rewrite F0. discriminate. }
   destruct o; simpl; try (rewrite F0; discriminate); try congruence.
-  - destruct (find k0 es); simpl.
-    + specialize (U (set_arr (ab_add M v)) ltac:(auto) k0). destruct (find k (upd k0 _ es)); congruence.
-    + rewrite find_app, F0. discriminate.
-  - destruct (find k0 es); simpl.
-    + specialize (U (set_arr (ab_add M v)) ltac:(auto) k0). destruct (find k (upd k0 _ es)); congruence.
-    + rewrite F0. discriminate.
-  - destruct (find k0 es); simpl.
-    + rewrite F0. discriminate.
-    + rewrite find_app, F0. discriminate.
+  - apply (add1_persists M (es, n)). simpl. rewrite F0. discriminate.
+  - destruct (find k0 es); simpl; [apply U; auto|rewrite F0; discriminate].
+  - destruct (find k0 es); simpl; [rewrite F0; discriminate|rewrite find_app, F0; discriminate].
   - destruct (find k0 es) as [e|]; simpl; [|rewrite F0; discriminate].
-    destruct (i <? length (evals e))%nat; simpl; [|rewrite F0; discriminate].
-    specialize (U (set_arr (ab_remove_at i)) ltac:(auto) k0). destruct (find k (upd k0 _ es)); congruence.
+    destruct (i <? length (evals e))%nat; simpl; [apply U; auto|rewrite F0; discriminate].
   - rewrite find_map by auto. rewrite F0. discriminate.
-  - destruct (find k0 es) as [e|]; simpl; [|rewrite F0; discriminate].
-    specialize (U (set_arr ab_clear) ltac:(auto) k0). destruct (find k (upd k0 _ es)); congruence.
+  - destruct (find k0 es) as [e|]; simpl; [apply U; auto|rewrite F0; discriminate].
   - destruct (find k0 es) as [e|] eqn:F; simpl; [|rewrite F0; discriminate].
     rewrite find_remove_other; [rewrite F0; discriminate|]. intros ->. apply (NK k0); auto.
-  - specialize (U (set_tag t) ltac:(auto) k0). destruct (find k (upd k0 _ es)); congruence.
+  - apply U; auto.
+  - destruct (find k0 es); simpl; [rewrite F0; discriminate|rewrite find_app, F0; discriminate].
+  - apply (add_range_persists M l k (es, n)). simpl. rewrite F0. discriminate.
+Qed.
+
+Lemma all_pairs_unfold e r : all_pairs (e :: r) = pairs_of e ++ all_pairs r.
+Proof. reflexivity. Qed.
+Lemma length_pairs_of_mm e : length (pairs_of e) = length (evals e).
+Proof. unfold pairs_of. apply map_length. Qed.
+
+(* ================================================================ MakeIterator(keyIter, valueIndex) / the iterator Remove returns *)
+(* position in the pair traversal of the i-th value of key k *)
+Fixpoint flat_pos (es : list entry) (k : Z) (i : nat) : nat :=
+  match es with
+  | [] => O
+  | e :: r => if ekey e =? k then i else (length (evals e) + flat_pos r k i)%nat
+  end.
+
+(* pvMakeIterator(keyIter, valueIndex, move = true): lines 1192-1203 with the pvMove of the constructor *)
+Fixpoint iter_at_key (es : list entry) (k : Z) (i : nat) : iter :=
+  match es with
+  | [] => ([], O)
+  | e :: r => if ekey e =? k then pv_move (e :: r, i) else iter_at_key r k i
+  end.
+
+Lemma skipn_app_len (A : Type) (x w : list A) n : skipn (length x + n) (x ++ w) = skipn n w.
+Proof. induction x; simpl; auto. Qed.
+
+Lemma skipn_app_le (A : Type) (x w : list A) n : (n <= length x)%nat -> skipn n (x ++ w) = skipn n x ++ w.
+Proof. revert n; induction x as [|a x IH]; intros [|n] H; simpl in *; auto; try lia. apply IH. lia. Qed.
+
+(* Remove(iter) returns pvMakeIterator(key, valueIndex, move) on the NEW state: the traversal continued from the
+   returned iterator is exactly the rest of the new traversal from the flat position of the removed pair -- the
+   value swapped into the hole comes next, or (hole was the last value) the first pair of the next key WITH values,
+   or end.  Holds for every order of the keys. *)
+Lemma iter_at_key_continues es : forall k i e n, find k es = Some e -> (i <= length (evals e))%nat ->
+  (Z.to_nat (sumlen es) <= n)%nat ->
+  traverse_from (S n) (iter_at_key es k i) = skipn (flat_pos es k i) (all_pairs es).
+Proof.
+  induction es as [|a r IH]; intros k i e n F Hi Hn; [discriminate|].
+  simpl in F. cbn [iter_at_key flat_pos]. rewrite all_pairs_unfold.
+  pose proof (sumlen_nonneg r) as NN. cbn [sumlen] in Hn. unfold elen in Hn.
+  destruct (Z.eqb_spec (ekey a) k) as [E|NE].
+  - inversion F; subst e. unfold pv_move. cbn [fst snd].
+    destruct (Nat.eqb_spec i (length (evals a))) as [L|L].
+    + subst i. rewrite <- (length_pairs_of_mm a). rewrite <- (Nat.add_0_r (length (pairs_of a))).
+      rewrite skipn_app_len. simpl. apply skip_empty_pairs. lia.
+    + rewrite skipn_app_le by (rewrite length_pairs_of_mm; lia).
+      apply (traverse_in_key a r (skip_empty_pairs r) n i); [lia|]. cbn [sumlen]. unfold elen. lia.
+  - rewrite <- (length_pairs_of_mm a). rewrite skipn_app_len. apply (IH k i e n F Hi). lia.
+Qed.
+
+(* ================================================================ exceptions: operations under a failure schedule *)
+(* fs: one boolean per fallible step reached, in program order (true = that step throws).  Fallible steps:
+   the allocations of ArrayBucket::AddBackCrt (add_back_f), "placing a new key in mHashMap" (hash table growth / key
+   copy: one step, strong guarantee of HashMap::AddCrt assumed - C04), the allocation of Array::Shrink in RemoveBack
+   (swallowed), and mHashMap.Remove in RemoveKey (key relocation may throw -> roll-back, lines 1100-1117).
+   Result: state, threw?, remaining schedule. *)
+Definition step1f (M : Z) (m : mm) (o : op) (fs : list bool) : mm * bool * list bool :=
+  let es := fst m in
+  let n := snd m in
+  let add_existing e k t v :=
+      (* AddCrt(keyIter): pvAddValue = valueArray.AddBackCrt(...) THEN ++mValueCount (1233-1240) *)
+      let '(_, threw, fs') := add_back_f M (fst (earr e)) fs in
+      if threw then (m, true, fs') else (add1 M m k t v, false, fs') in
+  match o with
+  | OAdd k t v =>
+      match find k es with
+      | Some e => add_existing e k t v
+      | None =>
+          (* mHashMap.AddCrt(pos, key, valuesCreator): table growth / key copy first (CopyExec copies the key, then
+             runs the creator), then the creator: AddBackCrt on a local null array, ++mValueCount *)
+          let (f, fs1) := take fs in
+          if f then (m, true, fs1) else
+          let '(_, threw, fs2) := add_back_f M RNull fs1 in
+          if threw then (m, true, fs2) else (add1 M m k t v, false, fs2)
+      end
+  | OAddAt k v =>
+      match find k es with
+      | Some e => add_existing e k 0 v
+      | None => (m, false, fs)
+      end
+  | ORemove k i =>
+      match find k es with
+      | Some e =>
+          if (i <? length (evals e))%nat then
+            let (r', fs') := remove_back_f (fst (earr e)) fs in
+            ((upd k (set_arr (fun a => (r', swap_remove i (snd a)))) es, n - 1), false, fs')
+          else (m, false, fs)
+      | None => (m, false, fs)
+      end
+  | ORemoveKey k =>
+      match find k es with
+      | Some e =>
+          let es1 := upd k (set_arr (fun _ => ab_null)) es in       (* ValueArray tempValueArray(std::move(valueArray)) *)
+          let (f, fs') := take fs in
+          if f then ((upd k (set_arr (fun _ => earr e)) es1, n), true, fs')   (* catch: valueArray = std::move(temp); throw *)
+          else ((remove_key k es1, n - elen e), false, fs')          (* pvRemoveValues(tempValueArray) *)
+      | None => (m, false, fs)
+      end
+  | _ => (step1 M m o, false, fs)
+  end.
+
+Lemma set_arr_restore g e : set_arr (fun _ => earr e) (set_arr g e) = e.
+Proof. destruct e; reflexivity. Qed.
+
+Lemma upd_restore k g es e : find k es = Some e ->
+  upd k (set_arr (fun _ => earr e)) (upd k (set_arr g) es) = es.
+Proof.
+  induction es as [|a r IH]; simpl; [discriminate|].
+  destruct (Z.eqb_spec (ekey a) k) as [E|NE]; simpl.
+  - intros [= <-]. rewrite E, Z.eqb_refl. rewrite set_arr_restore. reflexivity.
+  - destruct (Z.eqb_spec (ekey a) k); [contradiction|]. intros F. rewrite IH; auto.
+Qed.
+
+Lemma remove_key_upd k g es : (forall e, ekey (g e) = ekey e) -> remove_key k (upd k g es) = remove_key k es.
+Proof.
+  intros Hg. induction es as [|a r IH]; simpl; auto.
+  destruct (Z.eqb_spec (ekey a) k) as [E|NE]; simpl.
+  - rewrite Hg, E, Z.eqb_refl. reflexivity.
+  - destruct (Z.eqb_spec (ekey a) k); [contradiction|]. rewrite IH. reflexivity.
+Qed.
+
+(* strong guarantee: a call that throws leaves the container EXACTLY as it was (entries, representations, count) *)
+Theorem step1f_throw_unchanged M m o fs m' fs' :
+  step1f M m o fs = (m', true, fs') -> m' = m.
+Proof.
+  destruct m as [es n]. unfold step1f. cbn [fst snd].
+  destruct o; try (intros [= <- _]; fail); try discriminate.
+  - (* OAdd *)
+    destruct (find k es) as [e|] eqn:F.
+    + destruct (add_back_f M (fst (earr e)) fs) as [[r' threw] fs1]. destruct threw; [intros [= <- _]; reflexivity|discriminate].
+    + destruct (take fs) as [f fs1]. destruct f; [intros [= <- _]; reflexivity|].
+      destruct (add_back_f M RNull fs1) as [[r' threw] fs2]. destruct threw; [intros [= <- _]; reflexivity|discriminate].
+  - (* OAddAt *)
+    destruct (find k es) as [e|] eqn:F; [|discriminate].
+    destruct (add_back_f M (fst (earr e)) fs) as [[r' threw] fs1]. destruct threw; [intros [= <- _]; reflexivity|discriminate].
+  - (* ORemove *)
+    destruct (find k es) as [e|]; [|discriminate]. destruct (i <? length (evals e))%nat; [|discriminate].
+    destruct (remove_back_f (fst (earr e)) fs). discriminate.
+  - (* ORemoveKey *)
+    destruct (find k es) as [e|] eqn:F; [|discriminate].
+    destruct (take fs) as [f fs1]. destruct f; [|discriminate].
+    intros [= <- _]. rewrite (upd_restore _ _ _ _ F). reflexivity.
+Qed.
+
+(* a call that does not throw has the effect of the failure-free call on the mapping and the count; only the
+   capacity of a heap array may differ (swallowed Shrink failure); the invariant is kept *)
+Theorem step1f_ok M m o fs m' fs' : 0 < M < 16 -> Inv M m ->
+  step1f M m o fs = (m', false, fs') ->
+  Inv M m' /\ (forall x, abs (fst m') x = abs (fst (step1 M m o)) x) /\ snd m' = snd (step1 M m o).
+Proof.
+  intros HM HI. pose proof (step1_inv M m o HM HI) as HS.
+  assert (forall mm0, mm0 = step1 M m o -> Inv M mm0 /\ (forall x, abs (fst mm0) x = abs (fst (step1 M m o)) x) /\ snd mm0 = snd (step1 M m o)) as SAME
+    by (intros mm0 ->; auto).
+  destruct m as [es n]. unfold step1f. cbn [fst snd].
+  destruct o; try (intros [= <- _]; apply SAME; reflexivity).
+  - (* OAdd *)
+    destruct (find k es) as [e|] eqn:F.
+    + destruct (add_back_f M (fst (earr e)) fs) as [[r' threw] fs1]. destruct threw; [discriminate|].
+      intros [= <- _]. apply SAME. reflexivity.
+    + destruct (take fs) as [f fs1]. destruct f; [discriminate|].
+      destruct (add_back_f M RNull fs1) as [[r' threw] fs2]. destruct threw; [discriminate|].
+      intros [= <- _]. apply SAME. reflexivity.
+  - (* OAddAt *)
+    destruct (find k es) as [e|] eqn:F.
+    + destruct (add_back_f M (fst (earr e)) fs) as [[r' threw] fs1]. destruct threw; [discriminate|].
+      intros [= <- _]. apply SAME. simpl. rewrite F. unfold add1. simpl. rewrite F. reflexivity.
+    + intros [= <- _]. apply SAME. simpl. rewrite F. reflexivity.
+  - (* ORemove *)
+    simpl in HS. destruct (find k es) as [e|] eqn:F; [|intros [= <- _]; apply SAME; simpl; rewrite F; reflexivity].
+    destruct (Nat.ltb_spec i (length (evals e))) as [L|L]; [|intros [= <- _]; apply SAME; simpl; rewrite F;
+      destruct (Nat.ltb_spec i (length (evals e))); [lia|reflexivity]].
+    destruct (remove_back_f (fst (earr e)) fs) as [r' fs1] eqn:RB. intros [= <- _].
+    destruct HI as (ND & CN & AB). simpl in ND, CN, AB.
+    assert (ab_inv M (earr e)) as AE by (rewrite Forall_forall in AB; apply AB; eapply find_in; eauto).
+    destruct AE as [RI RC].
+    pose proof (remove_back_f_spec M (fst (earr e)) fs RI ltac:(unfold evals in L; lia)) as (RI' & RC' & _).
+    rewrite RB in RI', RC'. simpl in RI', RC'.
+    split; [|split].
+    + repeat split; simpl.
+      * rewrite keys_upd; auto.
+      * rewrite (sumlen_upd _ _ _ _ F).
+        assert (elen (set_arr (fun a => (r', swap_remove i (snd a))) e) = elen e - 1) as ->
+          by (unfold elen, evals; simpl; rewrite length_swap_remove; unfold evals in L; lia).
+        lia.
+      * eapply forall_upd; eauto. simpl. split; simpl; [exact RI'|]. rewrite RC', RC, length_swap_remove. unfold evals in L. lia.
+    + intros x. simpl. rewrite F. destruct (Nat.ltb_spec i (length (evals e))); [|lia]. simpl.
+      unfold abs. destruct (Z.eq_dec x k) as [->|NE].
+      * rewrite !(find_upd_same _ _ _ _ F) by auto. reflexivity.
+      * rewrite !find_upd_other by auto. reflexivity.
+    + simpl. rewrite F. destruct (Nat.ltb_spec i (length (evals e))); [|lia]. reflexivity.
+  - (* ORemoveKey *)
+    destruct (find k es) as [e|] eqn:F; [|intros [= <- _]; apply SAME; simpl; rewrite F; reflexivity].
+    destruct (take fs) as [f fs1]. destruct f; [discriminate|].
+    intros [= <- _]. apply SAME. simpl. rewrite F. rewrite remove_key_upd by auto. reflexivity.
+Qed.
+
+(* ---- all histories with failures: the mapping is that of the history with the throwing calls deleted *)
+Fixpoint runf1 (M : Z) (m : mm) (ops : list (op * list bool)) : mm * list op :=
+  match ops with
+  | [] => (m, [])
+  | (o, fs) :: r =>
+      let '(m', threw, _) := step1f M m o fs in
+      let (mf, done) := runf1 M m' r in
+      (mf, if threw then done else o :: done)
+  end.
+
+Theorem mm_failures_all_histories_thm M ops : 0 < M < 16 ->
+  forall m s, Inv M m -> (forall x, abs (fst m) x = s x) ->
+  let '(mf, done) := runf1 M m ops in
+  Inv M mf /\ (forall x, abs (fst mf) x = fold_left sp_step1 done s x) /\
+  snd mf = sumlen (fst mf).
+Proof.
+  intros HM. induction ops as [|[o fs] r IH]; intros m s HI HA; simpl.
+  - split; auto. split; auto. destruct HI as (_ & C & _); auto.
+  - destruct (step1f M m o fs) as [[m' threw] fs'] eqn:S.
+    destruct threw.
+    + apply step1f_throw_unchanged in S. subst m'.
+      specialize (IH m s HI HA). destruct (runf1 M m r) as [mf done]. exact IH.
+    + destruct (step1f_ok M m o fs m' fs' HM HI S) as (HI' & HA' & _).
+      assert (forall x, abs (fst m') x = sp_step1 s o x) as HA2.
+      { intros x. rewrite HA'. destruct HI as (ND & _). rewrite abs_step1 by auto. apply sp_step1_ext. exact HA. }
+      specialize (IH m' (sp_step1 s o) HI' HA2). destruct (runf1 M m' r) as [mf done]. exact IH.
 Qed.
